@@ -7,6 +7,8 @@
 #include <locale.h>
 #include <stdint.h>
 #include <errno.h>
+#include <sys/mman.h>
+#include <unistd.h>
 
 const fent_t g_fent[NFENT] = {
     {"sprintf_s", FK_PRINTF, 0, SK_BUF, 0, 0},   {"vsprintf_s", FK_PRINTF, 0, SK_BUF, 1, 0},
@@ -131,6 +133,22 @@ typedef union { int i; unsigned u; long l; long long ll; double d; long double l
 static unsigned char g_blocks[2 * FMAXD + 2][16];
 static const char SCAN_IN[] = "12 34 56 78 90 11 22 ab";
 
+/* output sinks for the stream / stdout entry points: real descriptors (memfd), because
+   vfprintf_s rejects streams without a file descriptor; one per orientation */
+static FILE *g_sink[2];
+static FILE *sink_file(int wide) {
+    if (!g_sink[wide]) {
+        int fd = memfd_create(wide ? "vsinkw" : "vsinkn", 0);
+        g_sink[wide] = fdopen(fd, "w+");
+        if (wide) fwide(g_sink[wide], 1);
+    }
+    fflush(g_sink[wide]);
+    if (ftruncate(fileno(g_sink[wide]), 0)) {}
+    rewind(g_sink[wide]);
+    clearerr(g_sink[wide]);
+    return g_sink[wide];
+}
+
 static size_t widen(const char *s, wchar_t *w, size_t n) {
     size_t i;
     for (i = 0; s[i] && i + 1 < n; i++) w[i] = (wchar_t)(unsigned char)s[i];
@@ -160,7 +178,7 @@ void fmt_run(const fcase_t *c, fres_t *x, int want_ref, int guard) {
     fmt_render(c, x->fmt, sizeof x->fmt);
     x->n_real = fmt_count_real_n(c);
     for (i = 0; i < c->nd; i++) if (c->d[i].conv == 'N') x->n_lookalike++;
-    setlocale(LC_ALL, c->locale ? "C.utf8" : "C");
+    { static int cur = -1; if (cur != c->locale) { setlocale(LC_ALL, c->locale ? "C.utf8" : "C"); cur = c->locale; } }
     memset(g_blocks, 0xA5, sizeof g_blocks);
     ar_reset();
 
@@ -250,7 +268,7 @@ void fmt_run(const fcase_t *c, fres_t *x, int want_ref, int guard) {
         av[1].p = e->wide ? (void *)wfmt : (void *)x->fmt; types[1] = &ffi_type_pointer; vals[1] = &av[1];
     } else {
         /* stream / std sinks */
-        if (e->kind == FK_PRINTF) stream = open_memstream(&msptr, &mssize);
+        if (e->kind == FK_PRINTF) stream = sink_file(e->wide);
         else { strcpy(inbuf, SCAN_IN); stream = fmemopen(inbuf, strlen(inbuf), "r"); }
         if (e->sink == SK_STREAM) {
             av[0].p = stream; types[0] = &ffi_type_pointer; vals[0] = &av[0];
@@ -280,18 +298,24 @@ void fmt_run(const fcase_t *c, fres_t *x, int want_ref, int guard) {
     }
 cleanup:
     if (saved) { if (e->kind == FK_PRINTF) stdout = saved; else stdin = saved; }
-    if (stream && !x->faulted) {
-        if (e->kind == FK_PRINTF) {
-            fclose(stream);
-            if (msptr) { x->out_len = mssize < sizeof x->out - 1 ? mssize : sizeof x->out - 1; memcpy(x->out, msptr, x->out_len); x->out[x->out_len] = 0; free(msptr); }
-        } else fclose(stream);
-    }
+    if (stream && e->kind == FK_PRINTF) {
+        if (x->faulted) { g_sink[e->wide] = NULL; /* stream lock state unknown: abandon it */ }
+        else {
+            long sz;
+            fflush(stream);
+            sz = lseek(fileno(stream), 0, SEEK_END);
+            if (sz < 0) sz = 0;
+            x->out_len = (size_t)sz < sizeof x->out - 1 ? (size_t)sz : sizeof x->out - 1;
+            if (pread(fileno(stream), x->out, x->out_len, 0) < 0) x->out_len = 0;
+            x->out[x->out_len] = 0;
+        }
+    } else if (stream && !x->faulted) fclose(stream);
+    (void)msptr; (void)mssize;
     if (e->kind == FK_PRINTF && e->sink == SK_BUF && x->dest && !x->faulted) {
         size_t k2 = x->dest_bytes < sizeof x->out ? x->dest_bytes : sizeof x->out;
         memcpy(x->out, x->dest, k2);
         x->out_len = k2;
     }
-    setlocale(LC_ALL, "C");
 }
 
 uint64_t fmt_hash(const fcase_t *c) {
